@@ -63,4 +63,55 @@ theorem evaluator_identity_application (w : World) :
     ∃ (h : Nat) (s' : Store), Eval (alloc initStore NatSemP.progId ⟨[], []⟩) w (.frame initStore.cells.size) h
         (.ok (.arg (.strict (.int 5)))) s' w := by_name_program _ _ w bn_identity_application
 
+/-! ### a recursive program, for every argument
+
+`NatSemP.countdown n` is `f(n)` with `f(k) = (k = 0)(0, f(k + (−1)))`: recursion through a function reference, a Boolean
+selecting between the result and the recursive call, ㄴ and ㄷ on integers.  In the reference semantics its value is 0
+for every natural number `n` — a two-line induction on trees — and adequacy transports this to the evaluator. -/
+
+/-- the body of `f` -/
+def loopBody : AST :=
+  .call (.call (.lit 1 NatSemP.sp0) [.argRef (.lit 0 NatSemP.sp0) 0 NatSemP.sp0, .lit 0 NatSemP.sp0] NatSemP.sp0)
+    [.lit 0 NatSemP.sp0, .call (.funRef 0 NatSemP.sp0)
+      [.call (.lit 2 NatSemP.sp0) [.argRef (.lit 0 NatSemP.sp0) 0 NatSemP.sp0, .lit (-1) NatSemP.sp0] NatSemP.sp0] NatSemP.sp0] NatSemP.sp0
+
+theorem countdown_eq (n : Int) : NatSemP.countdown n = .call (.funDef loopBody NatSemP.sp0) [.lit n NatSemP.sp0] NatSemP.sp0 := rfl
+
+/-- in the environment of a call of `f` whose argument expression has the value `k`, the body has the value 0 -/
+theorem bn_loop : ∀ (k : Nat) (a : AST) (ρa : TEnv), BN ρa a (.int k) →
+    BN (.mk [(loopBody, .mk [] [])] [[(a, ρa)]]) loopBody (.int 0) := by
+  intro k
+  induction k with
+  | zero =>
+    intro a ρa ha
+    have harg : BN (.mk [(loopBody, .mk [] [])] [[(a, ρa)]]) (.argRef (.lit 0 NatSemP.sp0) 0 NatSemP.sp0) (.int 0) :=
+      BN.argRef (frame := [(a, ρa)]) (i := 0) rfl BN.lit (by simp) rfl ha
+    have hc := BN.eqInt (n := 1) (spf := NatSemP.sp0) (sp := NatSemP.sp0) (by decide +kernel) harg (BN.lit (n := 0) (sp := NatSemP.sp0))
+    exact BN.sel (b := true) rfl hc BN.lit
+  | succ k ih =>
+    intro a ρa ha
+    have harg : BN (.mk [(loopBody, .mk [] [])] [[(a, ρa)]]) (.argRef (.lit 0 NatSemP.sp0) 0 NatSemP.sp0) (.int ((k + 1 : Nat) : Int)) :=
+      BN.argRef (frame := [(a, ρa)]) (i := 0) rfl BN.lit (by simp) rfl ha
+    have hc := BN.eqInt (n := 1) (spf := NatSemP.sp0) (sp := NatSemP.sp0) (by decide +kernel) harg (BN.lit (n := 0) (sp := NatSemP.sp0))
+    have hne : (((k + 1 : Nat) : Int) == 0) = false := by
+      simp only [beq_eq_false_iff_ne, ne_eq]; omega
+    rw [hne] at hc
+    refine BN.sel (b := false) rfl hc ?_
+    -- the recursive call: its argument expression has the value k
+    have hadd := BN.addInt (n := 2) (spf := NatSemP.sp0) (sp := NatSemP.sp0) (by decide +kernel) harg (BN.lit (n := -1) (sp := NatSemP.sp0))
+    have hk : (((k + 1 : Nat) : Int) + -1) = (k : Int) := by omega
+    rw [hk] at hadd
+    exact BN.call (b := loopBody) (ρd := .mk [] []) rfl (BN.funRef rfl) (ih _ _ hadd)
+
+/-- **for every natural number `n`**, the by-name value of `countdown n` is 0 -/
+theorem bn_countdown (n : Nat) : BN (.mk [] []) (NatSemP.countdown n) (.int 0) := by
+  rw [countdown_eq]
+  exact BN.call (b := loopBody) (ρd := .mk [] []) rfl BN.funDef (bn_loop n _ _ BN.lit)
+
+/-- … hence **the evaluator computes 0 for every `n`** — a statement about unboundedly many programs and
+unboundedly long evaluations, each with its memo cells, requestor chains and tail returns -/
+theorem evaluator_countdown (n : Nat) (w : World) :
+    ∃ (h : Nat) (s' : Store), Eval (alloc initStore (NatSemP.countdown n) ⟨[], []⟩) w (.frame initStore.cells.size) h
+        (.ok (.arg (.strict (.int 0)))) s' w := by_name_program _ _ w (bn_countdown n)
+
 end UH.ByNameP
